@@ -44,7 +44,8 @@ RECURSIVE Starts(_, _, _, _, _)
 Starts(ls, i, esc, open, crlf) ==
   IF i > Len(ls) THEN <<>>
   ELSE LET l == ls[i]
-           closes == open /\ l.k = "closecomment"
+           \* `-]` anywhere in the line ends an open comment (a `[-` inside a comment opens nothing)
+           closes == open /\ (l.k = "closecomment" \/ l.chunks = <<"[- block -]  ">>)
            stillOpen == open /\ ~closes
            \* the line is lexed as tokens of its own only if we are not inside a comment; an escaped newline glues it
            own == ~open /\ ~esc
